@@ -144,7 +144,7 @@ impl Check for C05Check {
     }
     fn cases(&self, tier: Tier) -> u64 {
         match tier {
-            Tier::Quick => 64,
+            Tier::Quick => 160,
             Tier::Thorough => 600,
         }
     }
